@@ -642,6 +642,12 @@ def run_process(
                         skw["resume_from"] = payload  # a live dictionary kept in memory by the caller
                     elif route == "path":
                         skw["resume_from"] = file_path
+                    elif route == "pkl":
+                        # the bytes a caller kept (sampler.last_checkpoint_bytes) written to a plain pickle file, resumed by its path
+                        pkl = os.path.join(workdir, "resume_payload.pkl")
+                        with open(pkl, "wb") as fh:
+                            fh.write(payload)
+                        skw["resume_from"] = pkl
                     else:
                         raise HarnessError(route)
                 if before_sample is not None:
